@@ -93,7 +93,7 @@ SEEDS=[ # prop, seed dir, expect
  ("C16","C16-1","expand.bracesSeqRec#inv-init@loop2.pad-covers-endpoints"),
  ("C20","C20-1","expand.Config.assgnArit#ensures@reads-old-value-first"),("C20","C20-2","syntax.Parser.arithmExpr#precedence@"),
  ("C04","C04-1","syntax.simplifier.visit#ensures@match-keeps-quotes"),("C04","C04-2","syntax.simplifier.removeNegateTest#ensures@complement-table"),
- ("C13","C13-1","syntax.Quote#"),("C13","C13-2","syntax.Quote#inv-pres@loop2.dollar-quote-length"),("C13","C13-4","syntax.Quote#inv-pres@loop2.dollar-quote-length"),("C28","C28-3","interp.Runner.builtin#onstore@"),("C04","C04-4","syntax.simplifier.simplifyWord#"),("C34","C34-1","expand.listEnviron_#"),("C34","C34-3","expand.listEnviron_#"),("C09","C09-1","syntax.Parser.rune#"),("C09","C09-3","syntax.Stmt.End#"),("C09","C09-4","syntax.Parser.rune#"),("C33","C33-2","expand.Config.sliceElems#ensures@sparse-offset"),("C20","C20-4","syntax.Parser.arithmExpr#precedence@"),("C18","C18-1","pattern.QuoteMeta#"),("C18","C18-2","pattern.HasMeta#"),
+ ("C13","C13-1","syntax.Quote#"),("C06","C06-3","syntax.Parser.zshNumRange#call-requires@syntax.Parser.fill"),("C13","C13-2","syntax.Quote#inv-pres@loop2.dollar-quote-length"),("C13","C13-4","syntax.Quote#inv-pres@loop2.dollar-quote-length"),("C28","C28-3","interp.Runner.builtin#onstore@"),("C04","C04-4","syntax.simplifier.simplifyWord#"),("C34","C34-1","expand.listEnviron_#"),("C34","C34-3","expand.listEnviron_#"),("C09","C09-1","syntax.Parser.rune#"),("C09","C09-3","syntax.Stmt.End#"),("C09","C09-4","syntax.Parser.rune#"),("C33","C33-2","expand.Config.sliceElems#ensures@sparse-offset"),("C20","C20-4","syntax.Parser.arithmExpr#precedence@"),("C18","C18-1","pattern.QuoteMeta#"),("C18","C18-2","pattern.HasMeta#"),
  ("C28","C23-2","interp.Runner.readLine#inv-pres@"),("C23","C23-2","interp.Runner.readLine#inv-pres@"),("C23","C23-1","expand.ReadFields#inv-"),
  ("C06","C06-2","syntax#eof-exit@Parser.zshSubFlags"),
  ("C08","C06-1","syntax.Parser.reset#"),
